@@ -186,6 +186,22 @@ func (g *Gen) Block(no uint64, n int) []*GTx {
 			sp.Nonce = g.Nonce[i] + pend[i] + 2 + uint64(g.R.Intn(3))
 			exp, useNonce = "reject", false
 			desc = fmt.Sprintf("badnonce-gap a%d nonce=%d", i, sp.Nonce)
+		case "multicall", "multicall-fail":
+			// a MULTICALL script that calls a contract (writing its storage) and, in the failing variant, then
+			// runs into an error; the receiver of such a tx is the sender's own plain account
+			if ver < 4 || len(g.Contracts) == 0 {
+				continue
+			}
+			ct := g.Contracts[g.R.Intn(len(g.Contracts))]
+			ca := types.EncodeAddress(ct.Addr)
+			script := fmt.Sprintf(`[["call","%s","inc","k%d"],["call","%s","inc","k%d"]`, ca, g.R.Intn(4), ca, g.R.Intn(4))
+			if k == "multicall-fail" {
+				script += fmt.Sprintf(`,["call","%s","fail"]`, ca)
+				exp = "fail"
+			}
+			script += "]"
+			sp.Type, sp.Payload, sp.Amount = types.TxType_MULTICALL, []byte(script), big.NewInt(0)
+			desc = fmt.Sprintf("%s a%d c=%x", k, i, ct.Addr[:4])
 		case "xfer-sweep":
 			// empties the account down to a remainder around the base fee (needs the current balance)
 			if g.Balance == nil || pend[i] > 0 {
